@@ -18,7 +18,9 @@
 (*          whose observed result differs from a decided verdict            *)
 (*                                                                         *)
 (* PARAMS (ndjson, one record): pa, ta = alphabets; pn, tn = length bounds; *)
-(*   bases = sequence of base paths; lawn = string bound for the laws.      *)
+(*   bases = sequence of base paths; lawn = string bound for the laws;      *)
+(*   syntax = "unix" or "windows" (the syntax argument given to the real    *)
+(*   matcher; see WinNorm in PathMatch.tla).                                *)
 (* A run may be restricted to the patterns i with i % SHARDS = SHARD (the   *)
 (* check runs the shards as parallel TLC processes).                        *)
 (***************************************************************************)
@@ -52,13 +54,21 @@ NT == Len(Paths)
 \* (TLC evaluates the argument-less definitions below once, eagerly; TLCEval forces the tables)
 \* per base: the PathInfo of every path, the distinct ones, the index of each path's info among them, and
 \* the paths that share each distinct info
-TI == TLCEval([b \in 1..NB |-> [j \in 1..NT |-> PathInfo(Paths[j].s, Bases[b])]])
+\* windows syntax: the strings are judged in their normal form; a string that starts with a backslash is not
+\* judged (on this platform the real code would see a root but not an absolute path)
+Win == "syntax" \in DOMAIN Params /\ Params.syntax = "windows"
+Norm(s) == IF Win THEN WinNorm(s) ELSE s
+\* ... nor one that starts with two separators (a UNC-like root)
+Backslashed(s) == Win /\ s # <<>> /\ (s[1] = "\\" \/ (Len(s) >= 2 /\ WinNorm(s)[1] = Sep /\ WinNorm(s)[2] = Sep))
+PathInfoN(t, base) == LET ti == PathInfo(Norm(t), Norm(base)) IN [ti EXCEPT !.undoc = @ \/ Backslashed(t)]
+PatInfoN(p, base)  == LET pi == PatInfo(Norm(p), Norm(base)) IN [pi EXCEPT !.undoc = @ \/ Backslashed(p)]
+TI == TLCEval([b \in 1..NB |-> [j \in 1..NT |-> PathInfoN(Paths[j].s, Bases[b])]])
 DistTI == TLCEval([b \in 1..NB |-> SetToSeq(ToSet(TI[b]))])
 TIdx == TLCEval([b \in 1..NB |-> [j \in 1..NT |-> CHOOSE d \in DOMAIN DistTI[b] : DistTI[b][d] = TI[b][j]]])
 Spelt == TLCEval([b \in 1..NB |-> [d \in DOMAIN DistTI[b] |-> {j \in 1..NT : TIdx[b][j] = d}]])
 
 \* the distinct (PatInfo, base) of the rows
-RowPI(o) == [pi |-> PatInfo(Pats[o.p].s, Bases[o.b]), b |-> o.b]
+RowPI(o) == [pi |-> PatInfoN(Pats[o.p].s, Bases[o.b]), b |-> o.b]
 DistPI == {RowPI(Rows[r]) : r \in DOMAIN Rows}
 
 \* tabulated Regions and InLang: every string in which a match is looked for, its regions, and for every
